@@ -73,10 +73,7 @@ def run(rep):
     # pass and then MemoizingInterpreter(SerializingInterpreter, finalize()): every axiom takes two slots there (the saved pattern and the
     # published Proved), so the analysis must budget 256 - n suggestions.  Outcome with and without optimisation must be the same
     # (n = 129 fills the memory exactly: slots 0..255).
-    big = []
-    for n_ax in ((100, 129) if quick else (60, 100, 127, 128, 129, 130, 160)):
-        ax = [('app', ('sym', 4000 + i // 200), ('app', ('evar', i % 200), ('evar', (i * 7 + 1) % 200))) for i in range(n_ax)]
-        big.append(('module', ax, list(ax), [('axiom', a) for a in ax], []))
+    big = ms.budget_modules((100, 129) if quick else (60, 100, 127, 128, 129, 130, 160))
     bent, _bdis = ms.serialise(big)
     budget = []
     for e, m in zip(bent, big):
